@@ -7,7 +7,7 @@ from symx.lib import *  # noqa
 META = {
     "bounds": {
         "quick": "every relative message sequence of length <=4 over {ON, OFF, WAIT, TS, KS} (780 shapes) plus 14 targeted shapes of "
-                 "length 5-7; pitch in {0,1} (so pitch == channel number is reachable), channel 0 (all shapes) / {0,1} (targeted), "
+                 "length 5-7; pitch in {0,1} (so pitch == channel number is reachable), channel 0 (all shapes) / {0,1} (targeted shapes and all shapes of length <= 3 with two note messages), "
                  "waits 1..32, TS numerator in {3,4} over 4, key in 2 keys, probe tick symbolic",
         "thorough": "every sequence of length <=5 (3905 shapes), channel {0,1} up to length 4, plus the targeted shapes",
     },
@@ -122,7 +122,7 @@ def queries(tier, seed):
     for n in range(1, maxlen + 1):
         for shape in itertools.product(KINDS, repeat=n):
             qs.append(q_shape(list(shape), 1))
-            if tier == "thorough" and n <= 4 and sum(1 for k in shape if k in ("ON", "OFF")) >= 2:
+            if (tier == "thorough" and n <= 4 or n <= 3) and sum(1 for k in shape if k in ("ON", "OFF")) >= 2:
                 qs.append(q_shape(list(shape), 2))
     for shape in TARGETED:
         qs.append(q_shape(shape, 2))
